@@ -55,7 +55,7 @@ def thorough(chk, prop, mod, repo):
         p = subprocess.run(["cargo", "+nightly", "test", "--doc", "--offline"], cwd=wdir, env=env, stdout=subprocess.PIPE, stderr=subprocess.STDOUT, text=True)
         if tmp_toml:
             shutil.rmtree(tmp_toml, ignore_errors=True)
-        tests = re.findall(r"^test src/lib\.rs - (\w+) \(line (\d+)\)( - compile fail)? \.\.\. (\w+)", p.stdout, re.M)
+        tests = re.findall(r"^test src/lib\.rs - (\w+) \(line (\d+)\)( - compile fail| - compile)? \.\.\. (\w+)", p.stdout, re.M)
         mine = [t for t in tests if t[0].startswith(WITNESS_PROPS[prop])]
         if not mine:
             chk.fail("CF", "CF:%s:witnesses-ran" % prop, "the witness doc-tests did not run: %s" % p.stdout[-400:])
